@@ -67,6 +67,7 @@ func (p *prop) Run(line string) core.Outcome {
 			return core.Outcome{Impl: "skipped", Tags: []string{"skipped:too-many-crashes-or-hangs", "trivial"}}
 		}
 		defer caseDone()
+		cleanCwd() // the adapter must see an empty working directory
 	}
 	switch f[0] {
 	case "order":
